@@ -778,6 +778,33 @@ func runCRP(c CRPCase, rec *h.Rec) error {
 				return h.Failf("C17:crp:shape", "op %d (%s) limb %d has %d coefficients, N=%d", oi, op.Proto, l, len(a[l]), params.N())
 			}
 		}
+		// a key-switch style CRP lives at the requested level, a public-key CRP at the maximum level of Q and P
+		wantLimbs := -1
+		switch op.Proto {
+		case "pk":
+			wantLimbs = len(c.Params.Q) + len(c.Params.P)
+		case "ks", "mpckks-mlt", "mpckks-refresh", "mpbgv-mt", "mpbgv-refresh":
+			wantLimbs = op.Level + 1
+		}
+		if wantLimbs >= 0 && len(a) != wantLimbs {
+			return h.Failf("C17:crp:wrong-level:"+op.Proto, "op %d: SampleCRP(level %d) returned %d limbs, want %d", oi, op.Level, len(a), wantLimbs)
+		}
+		if wantLimbs >= 0 {
+			// reduced values: limb l of these CRPs is modulo moduli[l] (Q chain, then P chain for the public-key CRP)
+			for l := range a {
+				q := c.Params.Q[0]
+				if l < len(c.Params.Q) {
+					q = c.Params.Q[l]
+				} else {
+					q = c.Params.P[l-len(c.Params.Q)]
+				}
+				for i, v := range a[l] {
+					if v >= q {
+						return h.Failf("C17:crp:not-below-modulus:"+op.Proto, "op %d limb %d coeff %d: %d >= %d", oi, l, i, v, q)
+					}
+				}
+			}
+		}
 		if len(a) == 0 || len(a) != len(b) || len(a) != len(x) {
 			return h.Failf("C17:crp:shape", "op %d (%s): %d / %d / %d limbs", oi, op.Proto, len(a), len(b), len(x))
 		}
